@@ -3,6 +3,29 @@ import sys, json
 from bisturi.fragments import Fragments
 
 
+def run_continue(history):
+    """a caller that catches the collision and goes on using the buffer: which operations raised, the final bytes and cursor"""
+    f = Fragments()
+    raised = []
+    for k, op in enumerate(history):
+        try:
+            if op[0] == 'i':
+                f.insert(op[1], bytes.fromhex(op[2]))
+            elif op[0] == 'a':
+                f.append(bytes.fromhex(op[1]))
+            elif op[0] == 'c':
+                f.current_offset = op[1]
+        except Exception as e:
+            if type(e) is Exception and str(e).startswith('Collision detected'):
+                raised.append(k)
+            else:
+                return ['crash', k, type(e).__name__]
+    try:
+        return ['ok', f.tobytes().hex(), f.current_offset, raised]
+    except Exception as e:
+        return ['crash', len(history), type(e).__name__]
+
+
 def run(history):
     f = Fragments()
     for k, op in enumerate(history):
@@ -27,4 +50,4 @@ def run(history):
 
 if __name__ == '__main__':
     payload = json.load(open(sys.argv[1]))
-    json.dump([run(h) for h in payload['histories']], open(sys.argv[2], 'w'), default=lambda o: {'object': type(o).__name__})
+    json.dump([(run_continue(h) if payload.get('continue') else run(h)) for h in payload['histories']], open(sys.argv[2], 'w'), default=lambda o: {'object': type(o).__name__})
